@@ -364,7 +364,32 @@ func (m *machine) exec(s M) (ret any) {
 		}
 		ret = splitBigFloat(m.reg(s, "x").Float(z))
 	case "Text":
-		ret = M{"s": m.reg(s, "x").Text(str(s, "fmt")[0], int(num(s, "prec")))}
+		r := M{"s": m.reg(s, "x").Text(str(s, "fmt")[0], int(num(s, "prec")))}
+		if _, ok := s["f64"]; ok {
+			// second implementation of the layout rules: strconv on the float64 of the same value
+			r["ref"] = strconv.FormatFloat(math.Float64frombits(unum(s, "f64")), str(s, "fmt")[0], int(num(s, "prec")), 64)
+		}
+		ret = r
+	case "TextParse":
+		// C11: x -> text -> parse into z
+		x, z := m.reg(s, "x"), m.reg(s, "z")
+		var text string
+		var ok bool
+		switch str(s, "via") {
+		case "text":
+			b, err := x.MarshalText()
+			text = string(b)
+			ok = err == nil && z.UnmarshalText(b) == nil
+		case "json":
+			b, err := json.Marshal(x)
+			text = string(b)
+			ok = err == nil && json.Unmarshal(b, z) == nil
+		default:
+			text = x.Text(str(s, "fmt")[0], -1)
+			_, _, err := z.Parse(text, 0)
+			ok = err == nil
+		}
+		ret = M{"s": text, "ok": ok}
 	case "Append":
 		pre := str(s, "pre")
 		ret = M{"s": string(m.reg(s, "x").Append([]byte(pre), str(s, "fmt")[0], int(num(s, "prec"))))}
@@ -373,7 +398,12 @@ func (m *machine) exec(s M) (ret any) {
 	case "Format":
 		x := m.reg(s, "x")
 		f := str(s, "f")
-		ret = M{"s": fmt.Sprintf(f, x)}
+		r := M{"s": fmt.Sprintf(f, x)}
+		if _, ok := s["f64"]; ok {
+			// second implementation: package fmt on the float64 of the same value
+			r["ref"] = fmt.Sprintf(f, math.Float64frombits(unum(s, "f64")))
+		}
+		ret = r
 	case "MarshalText":
 		b, err := m.reg(s, "x").MarshalText()
 		ret = M{"s": string(b), "err": err != nil}
